@@ -29,8 +29,9 @@ def apply_edit(src, old, new, occ=None):
     return old.join(parts[: occ + 1]) + new + old.join(parts[occ + 1 :])
 
 
-def run_mutant(prop, mod, m, base_sources):
-    """Returns (status, detail): status in fired / silent / skipped / error."""
+def run_mutant(prop, mod, m, base_sources, base_viol=frozenset()):
+    """Returns (status, detail): status in fired / silent / skipped / error.  Violations that the
+    unmodified tree already has (the listed known findings) do not count as firing."""
     overrides = {}
     for (modname, old, new, *rest) in m["edits"]:
         occ = rest[0] if rest else None
@@ -45,7 +46,7 @@ def run_mutant(prop, mod, m, base_sources):
         overrides[modname] = out
     ctx = report.Ctx(overrides=overrides)
     obs, errors = report.run_rules(prop, mod.RULES, ctx)
-    viol = sorted({(o.rule, o.construct) for o in obs if not o.ok})
+    viol = sorted({(o.rule, o.construct) for o in obs if not o.ok} - set(base_viol))
     if errors and not viol:
         return "error", "; ".join("%s: %s" % e for e in errors)[:300]
     if viol:
@@ -63,9 +64,12 @@ def run_for_property(prop, mod, ctx, verbose=False):
     t0 = time.time()
     base = {n: m.source for n, m in ctx.program.modules.items()}
     res = {"mutants_total": 0, "must_fire": 0, "fired": 0, "must_silent": 0, "silent": 0, "skipped": 0, "unexpected": []}
+    bobs, _berr = report.run_rules(prop, mod.RULES, ctx)
+    base_viol = frozenset((o.rule, o.construct) for o in bobs if not o.ok)
+    res["baseline_violations_ignored"] = len(base_viol)
     for m in corpus_for(prop):
         res["mutants_total"] += 1
-        status, detail = run_mutant(prop, mod, m, base)
+        status, detail = run_mutant(prop, mod, m, base, base_viol)
         want = m.get("expect", "fire")
         if status == "skipped":
             res["skipped"] += 1
